@@ -78,7 +78,8 @@ def case_strategy(draw):
             "off1": off1.tolist(), "off2": off2.tolist(), "point": n2 == 0,
             "frac": frac.tolist(), "cells": cells.tolist(),
             "shift1": shift1.tolist(), "shift2": shift2.tolist(),
-            "box_repr": draw(st.sampled_from(["float", "float", "int", "F", "readonly"])), "near_half": near_half}
+            "box_repr": draw(st.sampled_from(["float", "float", "int", "F", "readonly"])), "near_half": near_half,
+            "reuse_box": draw(st.integers(0, 3)) == 0}
 
 
 def check(case):
@@ -109,7 +110,23 @@ def check(case):
     plain = float(np.linalg.norm(sep))
     tol = 1e-9 * max(1.0, plain)
 
+    if case.get("reuse_box"):
+        # one box array (and one inverse-box array), updated in place between calls - e.g. a barostat rescaling the cell
+        held = box_arg() if brepr not in ("readonly", "int") else box.copy()
+        held_inv = np.linalg.inv(box)
+        real, real_inv = held.copy(), held_inv.copy()
+        held *= 1.37
+        lib("distance-prior", r1.distance_to, r2, box_vects=held)
+        held[...] = real
+        d_held = float(lib("distance", r1.distance_to, r2, box_vects=held))
+        held_inv /= 1.37
+        lib("distance-prior", r1.distance_to, r2, box_vects=held_inv, inv=True)
+        held_inv[...] = real_inv
+        d_held_inv = float(lib("distance-inv", r1.distance_to, r2, box_vects=held_inv, inv=True))
     d = float(lib("distance", r1.distance_to, r2, box_vects=box_arg()))
+    if case.get("reuse_box") and not (abs(d_held - d) <= tol and abs(d_held_inv - d) <= tol):
+        raise PropertyViolation("box-object-reused", "a box array that was rescaled in place and restored gives %.12g "
+                                "(inverse: %.12g), an equal fresh array %.12g" % (d_held, d_held_inv, d))
     d_plain = float(lib("distance", r1.distance_to, r2))
     if not abs(d_plain - plain) <= tol:
         raise PropertyViolation("non-periodic", "distance without box %r != %r" % (d_plain, plain))
